@@ -126,6 +126,7 @@ func main() {
 	})
 	counts := map[site]int{}
 	details := map[site][]string{}
+	st := &stateFacts{members: map[string]string{}, writes: map[string][][2]string{}, calls: map[string][]string{}, guards: map[string]string{}}
 	nfiles := 0
 	for _, p := range targets {
 		var files []*ast.File
@@ -153,8 +154,9 @@ func main() {
 			}
 			scan(af, fname, info, counts, details)
 			if strings.HasPrefix(fname, "x/") {
-				scanState(af, fname, p.ImportPath, info, counts, details)
+				scanState(af, fname, p.ImportPath, info, counts, details, st)
 			}
+			scanWrites(af, fname, p.ImportPath, info, st)
 		}
 	}
 	var sites []site
@@ -184,6 +186,7 @@ func main() {
 		fmt.Fprintf(&sb, "mk_site \"%s\" \"%s\" K_%s %d \"%s\"", s.File, s.Func, s.Kind, counts[s], strings.ReplaceAll(strings.Join(d, ","), "\"", "'"))
 	}
 	sb.WriteString("].\n\n")
+	st.emit(&sb)
 	fmt.Fprintf(&sb, "Definition gen_packages_checked : Z := %d.\nDefinition gen_files_checked : Z := %d.\n", len(targets), nfiles)
 	fmt.Fprintf(&sb, "Definition gen_max_oracle_size : Z := %s.\n", constValue(targets, fset, imp, fxModule+"/x/crosschain/types", "MaxOracleSize"))
 	if err := os.WriteFile(filepath.Join(out, "Gen_NondetSites.v"), []byte(sb.String()), 0o644); err != nil {
@@ -378,7 +381,7 @@ func shortType(t types.Type) string {
 }
 
 // scanState lists process-level mutable state in packages under x/.
-func scanState(af *ast.File, fname, pkgPath string, info *types.Info, counts map[site]int, details map[site][]string) {
+func scanState(af *ast.File, fname, pkgPath string, info *types.Info, counts map[site]int, details map[site][]string, sf *stateFacts) {
 	keeperPkg := strings.HasSuffix(pkgPath, "/keeper") || strings.Contains(pkgPath, "/keeper/")
 	for _, d := range af.Decls {
 		gd, ok := d.(*ast.GenDecl)
@@ -406,6 +409,7 @@ func scanState(af *ast.File, fname, pkgPath string, info *types.Info, counts map
 					k := site{fname, "<package-level>", "state"}
 					counts[k]++
 					details[k] = append(details[k], nm.Name+":"+ts)
+					sf.members[pkgPath+"."+nm.Name] = fname + "|<package-level>|" + nm.Name
 				}
 			case *ast.TypeSpec:
 				st, ok := x.Type.(*ast.StructType)
@@ -428,9 +432,208 @@ func scanState(af *ast.File, fname, pkgPath string, info *types.Info, counts map
 						k := site{fname, "type " + x.Name.Name, "state"}
 						counts[k]++
 						details[k] = append(details[k], n+":"+shortType(tv.Type))
+						if n != "(embedded)" {
+							sf.members[pkgPath+"."+x.Name.Name+"."+n] = fname + "|type " + x.Name.Name + "|" + n
+						}
 					}
 				}
 			}
 		}
 	}
+}
+
+// ---- who writes the process-level state, and who calls the writers ----
+
+type stateFacts struct {
+	members map[string]string      // "pkg.Type.field" / "pkg.var" -> "file|owner|member" of a K_state row
+	writes  map[string][][2]string // same key -> (file, func) of every write found anywhere
+	calls   map[string][]string    // "pkg.FuncOrMethodName" -> callers "file:func"
+	guards  map[string]string      // "pkg.FuncOrMethodName" -> "sealed" (first statement: if x.sealed { panic }) | "seals-first" (first statement: x.Seal())
+}
+
+func memberKeyOf(e ast.Expr, info *types.Info) string {
+	for {
+		switch x := e.(type) {
+		case *ast.IndexExpr:
+			e = x.X
+			continue
+		case *ast.ParenExpr:
+			e = x.X
+			continue
+		case *ast.StarExpr:
+			e = x.X
+			continue
+		}
+		break
+	}
+	switch x := e.(type) {
+	case *ast.SelectorExpr:
+		if sel, ok := info.Selections[x]; ok && sel.Kind() == types.FieldVal {
+			if v, ok := sel.Obj().(*types.Var); ok && v.Pkg() != nil {
+				t := sel.Recv()
+				if pt, ok := t.(*types.Pointer); ok {
+					t = pt.Elem()
+				}
+				if nt, ok := t.(*types.Named); ok {
+					return v.Pkg().Path() + "." + nt.Obj().Name() + "." + v.Name()
+				}
+			}
+		}
+		if id, ok := x.X.(*ast.Ident); ok { // pkg.Var
+			if _, isPkg := info.Uses[id].(*types.PkgName); isPkg {
+				if v, ok := info.Uses[x.Sel].(*types.Var); ok && v.Pkg() != nil {
+					return v.Pkg().Path() + "." + v.Name()
+				}
+			}
+		}
+	case *ast.Ident:
+		if v, ok := info.Uses[x].(*types.Var); ok && v.Pkg() != nil && v.Parent() == v.Pkg().Scope() {
+			return v.Pkg().Path() + "." + v.Name()
+		}
+	}
+	return ""
+}
+
+func scanWrites(af *ast.File, fname, pkgPath string, info *types.Info, sf *stateFacts) {
+	for _, d := range af.Decls {
+		fd, ok := d.(*ast.FuncDecl)
+		if !ok || fd.Body == nil {
+			continue
+		}
+		fn := funcName(fd)
+		fkey := pkgPath + "." + fd.Name.Name
+		if len(fd.Body.List) > 0 {
+			switch x := fd.Body.List[0].(type) {
+			case *ast.IfStmt:
+				if sel, ok := x.Cond.(*ast.SelectorExpr); ok && sel.Sel.Name == "sealed" && len(x.Body.List) == 1 {
+					if es, ok := x.Body.List[0].(*ast.ExprStmt); ok {
+						if c, ok := es.X.(*ast.CallExpr); ok {
+							if id, ok := c.Fun.(*ast.Ident); ok && id.Name == "panic" {
+								sf.guards[fkey] = "sealed"
+							}
+						}
+					}
+				}
+			case *ast.ExprStmt:
+				if c, ok := x.X.(*ast.CallExpr); ok {
+					if sel, ok := c.Fun.(*ast.SelectorExpr); ok && sel.Sel.Name == "Seal" && len(c.Args) == 0 {
+						sf.guards[fkey] = "seals-first"
+					}
+				}
+			}
+		}
+		note := func(e ast.Expr) {
+			if k := memberKeyOf(e, info); k != "" {
+				sf.writes[k] = append(sf.writes[k], [2]string{fname, fn})
+			}
+		}
+		ast.Inspect(fd.Body, func(n ast.Node) bool {
+			switch x := n.(type) {
+			case *ast.AssignStmt:
+				if x.Tok != token.DEFINE {
+					for _, l := range x.Lhs {
+						note(l)
+					}
+				}
+			case *ast.IncDecStmt:
+				note(x.X)
+			case *ast.CompositeLit: // &router{routes: ...}
+				if tv, ok := info.Types[x]; ok && tv.Type != nil {
+					t := tv.Type
+					if nt, ok := t.(*types.Named); ok && nt.Obj().Pkg() != nil {
+						for _, el := range x.Elts {
+							if kv, ok := el.(*ast.KeyValueExpr); ok {
+								if id, ok := kv.Key.(*ast.Ident); ok {
+									k := nt.Obj().Pkg().Path() + "." + nt.Obj().Name() + "." + id.Name
+									sf.writes[k] = append(sf.writes[k], [2]string{fname, fn})
+								}
+							}
+						}
+					}
+				}
+			case *ast.CallExpr:
+				if id, ok := x.Fun.(*ast.Ident); ok && id.Name == "delete" && len(x.Args) == 2 {
+					note(x.Args[0])
+				}
+				// callee
+				var obj types.Object
+				switch f := x.Fun.(type) {
+				case *ast.SelectorExpr:
+					if sel, ok := info.Selections[f]; ok {
+						obj = sel.Obj()
+					} else {
+						obj = info.Uses[f.Sel]
+					}
+				case *ast.Ident:
+					obj = info.Uses[f]
+				}
+				if fo, ok := obj.(*types.Func); ok && fo.Pkg() != nil && strings.HasPrefix(fo.Pkg().Path(), fxModule+"/") {
+					k := fo.Pkg().Path() + "." + fo.Name()
+					sf.calls[k] = append(sf.calls[k], fname+":"+fn)
+				}
+			}
+			return true
+		})
+	}
+}
+
+func (sf *stateFacts) emit(sb *strings.Builder) {
+	uniq := func(l []string) []string {
+		sort.Strings(l)
+		var out []string
+		for i, x := range l {
+			if i == 0 || x != l[i-1] {
+				out = append(out, x)
+			}
+		}
+		return out
+	}
+	var wl []string
+	writerFns := map[string]bool{}
+	var mkeys []string
+	for k := range sf.members {
+		mkeys = append(mkeys, k)
+	}
+	sort.Strings(mkeys)
+	for _, k := range mkeys {
+		for _, w := range sf.writes[k] {
+			wl = append(wl, fmt.Sprintf("(\"%s\", \"%s\", \"%s\")", sf.members[k], w[0], w[1]))
+			// the writer's call key: package path of the member + bare function name
+			pkg := k[:strings.LastIndex(k, ".")]
+			if strings.Count(sf.members[k], "|type ") > 0 {
+				pkg = pkg[:strings.LastIndex(pkg, ".")]
+			}
+			name := w[1]
+			if i := strings.LastIndex(name, "."); i >= 0 {
+				name = name[i+1:]
+			}
+			writerFns[pkg+"."+name] = true
+		}
+	}
+	wl = uniq(wl)
+	sb.WriteString("(* every write to a K_state member: (file|owner|member, writer file, writer function) *)\nDefinition gen_state_writers : list (string * string * string) :=\n [" + strings.Join(wl, ";\n  ") + "].\n\n")
+	var gl, cl []string
+	var wk []string
+	for k := range writerFns {
+		wk = append(wk, k)
+	}
+	sort.Strings(wk)
+	short := func(k string) string { return strings.TrimPrefix(k, fxModule+"/") }
+	for _, k := range wk {
+		g := sf.guards[k]
+		gl = append(gl, fmt.Sprintf("(\"%s\", \"%s\")", short(k), g))
+		for _, c := range uniq(append([]string{}, sf.calls[k]...)) {
+			cl = append(cl, fmt.Sprintf("(\"%s\", \"%s\")", short(k), c))
+		}
+	}
+	sb.WriteString("(* writer function -> \"sealed\" when its first statement is `if x.sealed { panic(..) }` *)\nDefinition gen_writer_guards : list (string * string) :=\n [" + strings.Join(gl, ";\n  ") + "].\n\n")
+	sb.WriteString("(* writer function -> every function that calls it (fx-core packages under x, app, ante, types) *)\nDefinition gen_writer_callers : list (string * string) :=\n [" + strings.Join(cl, ";\n  ") + "].\n\n")
+	var sl []string
+	for k, g := range sf.guards {
+		if g == "seals-first" {
+			sl = append(sl, "\""+short(k)+"\"")
+		}
+	}
+	sort.Strings(sl)
+	sb.WriteString("(* functions whose first statement seals the router they were handed *)\nDefinition gen_seals_first : list string :=\n [" + strings.Join(sl, "; ") + "].\n\n")
 }
